@@ -124,7 +124,7 @@ class fixed_format_file(object):
             pos = 0
             for spec in specs:
                 fmt, typ=spec[:-1], spec[-1]
-                w = int(fmt.partition('.')[0])
+                w = abs(int(fmt.partition('.')[0]))
                 nextpos = pos + w
                 self.line_spec[section].append(((pos, nextpos), typ))
                 pos = nextpos
